@@ -63,7 +63,7 @@ func (m *Monitor) doRespConnect(r *mReq, msg *stun.Message, ok bool, code int, I
 			// a second Connect to a peer with a pending/active connection must be 446
 			dup := false
 			for _, t := range def.TCPs {
-				if t.Peer == ustr(peer) && !t.Closed && t.Created.Hi < I.Lo {
+				if t.Peer == ustr(peer) && !t.Closed && t.Created.Hi < I.Lo && (t.Bound || t.Created.Lo+bindTimeoutNS > I.Hi) {
 					dup = true
 				}
 			}
@@ -97,7 +97,7 @@ func (m *Monitor) doRespConnect(r *mReq, msg *stun.Message, ok bool, code int, I
 		m.v([]string{"C16"}, "cid-reused", nil, "Connect success names connection id %d which another live connection has", cid)
 	}
 	for _, t := range a.TCPs {
-		if t.Peer == ustr(peer) && !t.Closed && t.Created.Hi < I.Lo && (t.Bound || t.Created.Hi+bindTimeoutNS > I.Hi) {
+		if t.Peer == ustr(peer) && !t.Closed && t.Created.Hi < I.Lo && (t.Bound || t.Created.Lo+bindTimeoutNS > I.Hi) {
 			m.v([]string{"C16"}, "dup-connect-wrong-answer", kv("code", "success"), "second Connect to %s succeeded while connection %d to that peer is pending or active", ustr(peer), t.CID)
 		}
 	}
@@ -148,7 +148,7 @@ func (m *Monitor) doRespConnBind(r *mReq, msg *stun.Message, ok bool, code int, 
 		a, t = m.findTCPByCID(cid)
 	}
 	if !ok {
-		if t != nil && r.Auth > 0 && r.User == a.User && !t.Bound && !t.Closed && t.Created.Hi+bindTimeoutNS > I.Hi+1 &&
+		if t != nil && r.Auth > 0 && r.User == a.User && !t.Bound && !t.Closed && t.Created.Lo+bindTimeoutNS > I.Hi+1 &&
 			m.M.DefinitelyAlive(a, I.Lo, I.Hi) && len(m.K.StallIntervals()) == 0 && !m.serverClosed && !t.peerGone() {
 			m.v([]string{"C16"}, "valid-bind-rejected", kv("code", itoa(code)), "ConnectionBind of pending connection %d, %d ns after it was made, by its owner answered %d", cid, I.Lo-t.Created.Hi, code)
 		}
